@@ -5,7 +5,7 @@ PROPERTY = "C06"
 
 
 def tasks(tier):
-    return (contract_tasks("contracts.scenario_min", "C06") + contract_tasks("contracts.connect", "C06", tier=tier)
+    return (contract_tasks("contracts.world_group", "C06") + contract_tasks("contracts.scenario_min", "C06") + contract_tasks("contracts.connect", "C06", tier=tier)
             + contract_tasks("contracts.groups", "C11", tier=tier) + lemma_tasks("contracts.groups", "C11")
             + contract_tasks("contracts.tiered_time", "C08", names=["IntervalAdd", "IntervalLt"])
             + lemma_tasks("contracts.tiered_time", "C08", names=["CompAssociative", "CompMonotoneRight", "LtTransitive"])
